@@ -27,11 +27,6 @@ CoreAlphabet == IF Quick THEN {"$", "%", "a"} ELSE {"$", "%", "a", ";", "("}
 CoreLen == IF Quick THEN 4 ELSE 4
 Core == UpTo(CoreAlphabet, CoreLen)
 
-(* the law of RawSql (the reference rendering is faithful under the driver model) once more, one character longer *)
-ASSUME AdaptIsFaithful4 ==
-    \A s \in Strings(AlphabetSet, 4) : \A k \in 1 .. Len(Styles) :
-        LET a == Adapt(s, Styles[k]) IN a.ok /\ ~Mergeable(s, Styles[k]) => Faithful(s, Styles[k], a.text, a.hasargs)
-
 ASSUME JsonSerialize(IOEnv.OUT, [alphabet |-> Alphabet, styles |-> Styles, maxlen |-> MaxLen, exprfirst |-> ExprFirst,
                                  count |-> Count, core |-> Core, extra |-> Extra])
 =============================================================================
